@@ -80,7 +80,7 @@ class Schedules(Part):
         workers = case["workers"]
         todo = sum(1 for p in pre if not p)
         gates = sched.Gates([tuple(s) for s in case["schedule"]], todo, workers)
-        rec = jobrec.Rec(dim=2, m=rng.randint(1, 2), mode="parallel", workers=workers, gate=gates.gate, db=db)
+        rec = jobrec.Rec(dim=2, m=rng.randint(1, 2), mode="parallel", workers=workers, gate=gates.gate, db=db, constrained=rng.random() < 0.5)
         rec.on_synced = gates.done
         rec.gate_begin = True
         vectors = [[round(rng.uniform(-5, 5), 6) for _ in range(2)] for _ in range(n)]
@@ -88,7 +88,9 @@ class Schedules(Part):
             # replicated designs: distinct objects with identical coordinates (elites, particles clipped to a bound) are designs of their own
             i, j = rng.sample(range(n), 2)
             vectors[j] = list(vectors[i])
-        rec.new_batch(vectors, pre=pre)
+        # offspring-like designs: created by copy() from an earlier design of the batch, then given their own vector
+        copies = {j: rng.randrange(j) for j in range(1, n) if rng.random() < 0.4}
+        rec.new_batch(vectors, pre=pre, copies=copies)
         th = threading.Thread(target=gates.controller, daemon=True)
         th.start()
         exc = jobrec.evaluate_batch(rec, workers=workers, on_exception=gates.finish)
@@ -102,7 +104,7 @@ class Schedules(Part):
         case["realised"] = gates.realised
         Schedules.steered_total += 1
         Schedules.steered_realised += 1 if gates.realised else 0
-        return rec.events
+        return rec.events + rec.signed_events()
 
     @staticmethod
     def stress(rng, case, db):
@@ -122,12 +124,12 @@ class Schedules(Part):
                 if case["faulty"] and att < 3 and srng.random() < 0.2:
                     return "timeout"
             return "ok"
-        rec = jobrec.Rec(dim=2, m=1, mode="parallel", workers=workers, gate=gate, script=script, db=db)
+        rec = jobrec.Rec(dim=2, m=1, mode="parallel", workers=workers, gate=gate, script=script, db=db, constrained=rng.random() < 0.5)
         vectors = [[round(rng.uniform(-5, 5), 6) for _ in range(2)] for _ in range(n)]
         for _ in range(rng.choice([0, 0, 1, 3])):
             i, j = rng.sample(range(n), 2)
             vectors[j] = list(vectors[i])
-        rec.new_batch(vectors, pre=[rng.random() < 0.15 for _ in range(n)])
+        rec.new_batch(vectors, pre=[rng.random() < 0.15 for _ in range(n)], copies={j: rng.randrange(j) for j in range(1, n) if rng.random() < 0.3})
         restore = None
         if case.get("contention"):
             # lock contention injected at the sqlite3 boundary: the upsert of a design fails 1..3 times with "database is locked"
@@ -170,7 +172,7 @@ class Schedules(Part):
             if restore:
                 restore[0].connect = restore[1]
         rec.end_event(exc)
-        return rec.events
+        return rec.events + rec.signed_events()
 
     def nontrivial(self, case, trace):
         # two objective calls overlapped: a call event while another design was in call
